@@ -229,6 +229,11 @@ def base_messages(pkg):
                                        {"name": "depth", "type": "sint32", "required": True},
                                        {"name": "plain", "type": "message", "type_name": P + ".Plain"}]},
         {"name": "OpMeta", "fields": [{"name": "progress", "type": "int32"}]},
+        # a real oneof whose REQUIRED member is not the first option
+        {"name": "Lookup", "fields": [{"name": "shelf", "type": "string", "required": True},
+                                      {"name": "isbn", "type": "string", "oneof": "key"},
+                                      {"name": "title", "type": "string", "oneof": "key", "required": True},
+                                      {"name": "number", "type": "int64", "oneof": "key"}]},
     ]
 
 
@@ -253,7 +258,7 @@ def gen_request_fields(r, pkg, twist=None):
 
     n_req = r.randint(0, 4)
     for _ in range(n_req):
-        k = r.pick(["scalar", "scalar", "enum", "rep_scalar", "rep_enum", "message", "deep", "resource", "shared"])
+        k = r.pick(["scalar", "scalar", "enum", "rep_scalar", "rep_enum", "message", "deep", "resource", "shared", "lookup"])
         if k == "scalar":
             fields.append({"name": fname(), "type": r.pick(SCALARS), "required": True})
         elif k == "enum":
@@ -268,6 +273,8 @@ def gen_request_fields(r, pkg, twist=None):
             fields.append({"name": fname(), "type": "message", "type_name": P + ".Wrapper", "required": True})
         elif k == "shared":
             fields.append({"name": fname(), "type": "message", "type_name": P + ".Publisher", "required": True})
+        elif k == "lookup":
+            fields.append({"name": fname(), "type": "message", "type_name": P + ".Lookup", "required": True})
         elif k == "resource":
             f = {"name": fname(r.pick(["name", "parent", "book"])), "type": "string", "required": True}
             f["ref" if r.maybe() else "child_ref"] = "lib.example.com/Book"
@@ -277,10 +284,11 @@ def gen_request_fields(r, pkg, twist=None):
         first = r.pick(["scalar", "scalar", "enum", "message"])
         for j in range(r.randint(1, 3)):
             k = first if j == 0 else r.pick(["scalar", "enum", "message", "plain"])
+            req_member = j > 0 and r.maybe(0.3)      # a REQUIRED member that is not the first option
             if k == "scalar":
-                fields.append({"name": fname(), "type": r.pick(SCALARS), "oneof": oname})
+                fields.append({"name": fname(), "type": r.pick(SCALARS), "oneof": oname, "required": req_member})
             elif k == "enum":
-                fields.append({"name": fname(), "type": "enum", "type_name": P + ".Color", "oneof": oname})
+                fields.append({"name": fname(), "type": "enum", "type_name": P + ".Color", "oneof": oname, "required": req_member})
             elif k == "message":
                 fields.append({"name": fname(), "type": "message", "type_name": P + r.pick([".Author", ".Wrapper"]), "oneof": oname})
             else:
@@ -706,6 +714,70 @@ def check_present(facts, full, dyn, path=""):
     return out
 
 
+def sample_assigned_paths(text):
+    """what the emitted sample assigns, read off its AST: the keyword arguments of the (last) `request = T(...)`
+    constructor and the `var.a.b = …` assignments of the variables passed to it; returns a set of field paths"""
+    import ast
+    tree = ast.parse(text)
+    fn = next((n for n in ast.walk(tree) if isinstance(n, (ast.FunctionDef, ast.AsyncFunctionDef)) and n.name.startswith("sample_")), None)
+    if fn is None:
+        return None
+    attr_paths, ctor = {}, None
+    for st in fn.body:
+        if not isinstance(st, ast.Assign) or len(st.targets) != 1:
+            continue
+        tgt = st.targets[0]
+        if isinstance(tgt, ast.Name) and tgt.id == "request" and isinstance(st.value, ast.Call) and \
+                (st.value.keywords or not st.value.args):
+            ctor = (st.value, {k: set(v) for k, v in attr_paths.items()})
+            if not st.value.keywords:
+                attr_paths.pop("request", None)      # `request = T()` starts a fresh variable
+            continue
+        if isinstance(tgt, ast.Name) and isinstance(st.value, ast.Call):
+            attr_paths[tgt.id] = set()
+            continue
+        chain, node = [], tgt
+        while isinstance(node, ast.Attribute):
+            chain.append(node.attr)
+            node = node.value
+        if chain and isinstance(node, ast.Name):
+            attr_paths.setdefault(node.id, set()).add(tuple(reversed(chain)))
+    if ctor is None:
+        return None
+    call, seen_attrs = ctor
+    paths = set()
+    for kw in call.keywords:
+        if kw.arg is None:
+            continue
+        paths.add((kw.arg,))
+        if isinstance(kw.value, ast.Name):
+            for sub in seen_attrs.get(kw.value.id, ()):
+                paths.add((kw.arg,) + sub)
+    return paths
+
+
+def oneof_member_counts(facts, full, paths, where=""):
+    """[(oneof path, [members assigned])] for every REAL oneof of every message the assigned paths touch"""
+    out = []
+    m = facts.msgs.get(full)
+    if m is None:
+        return out
+    first = {p[0] for p in paths if p}
+    groups = {}
+    for fd in m.field:
+        o = facts.oneof_name(m, fd)
+        if o is not None and not fd.proto3_optional:
+            groups.setdefault(o, []).append(fd.name)
+    for o, members in groups.items():
+        out.append((where + o, [n for n in members if n in first]))
+    for fd in m.field:
+        if fd.type in (10, 11) and fd.label != 3 and fd.name in first:
+            sub = {p[1:] for p in paths if p and p[0] == fd.name and len(p) > 1}
+            if sub:
+                out += oneof_member_counts(facts, fd.type_name.lstrip("."), sub, where + fd.name + ".")
+    return out
+
+
 def entries_to_dict(entries):
     d = {}
     for e in entries:
@@ -878,6 +950,18 @@ def run_api(ctx, r, spec, label):
                     key = "sample-syntax-error"
                 ctx.fail(key, f"{e.get('file')} does not compile: {ex.msg} (line {ex.lineno})", pl)
                 continue
+            # oracle: the request set-up of the sample assigns at most ONE member of each real oneof (model-independent)
+            root_in = me["input"].lstrip(".")
+            try:
+                assigned = sample_assigned_paths(text)
+            except SyntaxError:
+                assigned = None
+            if assigned is not None and root_in in facts.msgs:
+                for opath, members in oneof_member_counts(facts, root_in, assigned):
+                    ctx.count("oneof_members_assigned", len(members))
+                    if len(members) > 1:
+                        ctx.fail(f"oneof-members-populated:{len(members)}",
+                                 f"{e.get('file')}: the sample assigns {len(members)} members {members} of oneof {opath} of {root_in}", pl)
             fnames = re.findall(r"^(?:async )?def (sample_\w+)\(", text, re.M)
             if len(fnames) != 1:
                 ctx.fail("sample-function", f"{e.get('file')}: sample functions {fnames}", pl)
